@@ -88,16 +88,7 @@ type SConf struct {
 }
 
 func (c *SConf) Coq() string {
-	kind := "(TTcp false)"
-	if c.Kind == "memtls" {
-		kind = "(TTcp true)"
-	}
-	if c.Kind == "multi" {
-		kind = "TMulti"
-	}
-	if c.Kind == "inproc" {
-		kind = "TInproc"
-	}
+	kind := coqKind(c.Kind)
 	return coqfmt.Record("sc_comp", coqfmt.Strs(c.Comp), "sc_enc", coqfmt.Strs(c.Enc), "sc_schemes", coqfmt.Strs(c.Schemes),
 		"sc_kind", kind, "sc_tls_ok", coqfmt.Bool(c.TLSOk), "sc_sid", coqfmt.Str("SID"))
 }
